@@ -4,7 +4,7 @@ import json, random
 import pipeline, vlib
 
 BEH = ('{"unreachable", "refuse", "drop-connect", "drop-register", "drop-after-register", "healthy", '
-       '"slow-configure", "configure-rejected", "drop-in-configure"}')
+       '"slow-configure", "configure-rejected", "configure-badmask", "drop-in-configure"}')
 
 
 class StubLife(pipeline.Module):
@@ -28,7 +28,7 @@ class StubLife(pipeline.Module):
                  invariants="FreshConn Usable OnceNotify", props="LateNotifyHarmless EventuallyNotified StartReturns", neg=True),
             dict(name="ops", consts='  MaxOps = %d\n  MaxStarts = %d\n  Behaviours = {"healthy", "refuse", "drop-after-register"}\n  Gates = {TRUE, FALSE}'
                  % (5 if th else 4, 3 if th else 2), workers=4),
-            dict(name="ops-configure", consts='  MaxOps = %d\n  MaxStarts = 3\n  Behaviours = {"healthy", "slow-configure", "configure-rejected", "drop-in-configure"}\n  Gates = {FALSE}'
+            dict(name="ops-configure", consts='  MaxOps = %d\n  MaxStarts = 3\n  Behaviours = {"healthy", "slow-configure", "configure-rejected", "configure-badmask", "drop-in-configure"}\n  Gates = {FALSE}'
                  % (4 if th else 3), workers=4),
             dict(name="ops-behaviours", consts='  MaxOps = 3\n  MaxStarts = 2\n  Behaviours = %s\n  Gates = {FALSE}' % BEH),
         ]
